@@ -13,13 +13,16 @@ Spec: spec/Ufunc.tla (+ MC_C01, MC_C01_table, Trace_C01).
   5. code -> spec: the repository's own test-suite under the external tracer, predicate P01 (spec/SuiteTrace.tla).
 Python only builds operands, projects results and snaps floats to small rationals (rel 1e-12)."""
 
+import concurrent.futures as cf
 import json
 import math
+import os
 from fractions import Fraction
 
 from common import INT_LIMIT, MachineryFailure
 
 CASE_FIELDS = ("fam", "op", "form", "k0", "n0", "k1", "n1")
+CHUNK = 25000
 
 
 def _rat(s):
@@ -46,6 +49,7 @@ def _obs_record(case, o):
         if all(r is not None for r in rs):
             v, vk = rs, "exact"
     rec = {k: case[k] for k in CASE_FIELDS}
+    rec["h"] = case.get("h", "none")
     rec["obs"] = {"k": o["k"], "exc": o.get("exc", ""), "unit": o.get("unit", ""), "vk": vk, "v": v, "same": bool(o.get("same", False))}
     return rec
 
@@ -54,39 +58,52 @@ def _set(xs):
     return "{" + ", ".join(json.dumps(x) for x in sorted(xs)) + "}"
 
 
-def _validate(ck, cases, obs, label, table=()):
-    """TLC evaluates P and T on the observations; verdicts from its records."""
+def _validate_chunk(ck, part, label, off, tpath):
+    """One TLC trace-validation run (thread-safe: no verdict is recorded here)."""
+    path = ck.write_json(f"obs_{label}_{off}.json", part)
+    res = ck.tlc("Trace_C01", env={"OBS": path, "TABLE": tpath}, workers=1, coverage=False, label=f"trace validation {label} [{off}:{off + len(part)}]", timeout=1800)
+    if res.distinct != len(part) + 1:
+        raise MachineryFailure(f"trace validation {label} consumed {res.distinct - 1} of {len(part)} observations")
+    os.unlink(path)
+    return res
+
+
+def _verdicts(ck, part, res, table):
+    """Turn TLC's records into verdicts (main thread, deterministic order)."""
+    ck.validated(len(part))
+    for r in res.by_tag("T-FAIL"):
+        rec = part[r["idx"] - 1]
+        ck.drift_step(f"{rec['fam']}.{rec['op']}", {"case": {k: rec[k] for k in CASE_FIELDS + ("h",)}, "model": {k: r["model"][k] for k in ("k", "exc", "unit", "v")}, "observed": rec["obs"]})
+    for r in res.by_tag("P-FAIL"):
+        rec = part[r["idx"] - 1]
+        case = {k: rec[k] for k in CASE_FIELDS}
+        case["h"] = rec["h"]
+        key = dict(case)
+        key["cls"] = r["cls"]
+        key["clause"] = r["clause"]
+        if table:
+            names = {t["name"]: t["sym"] for t in table}
+            key["u0"] = names.get(case["n0"], case["n0"])
+            key["u1"] = names.get(case["n1"], case["n1"])
+            key.pop("n0"), key.pop("n1")
+        ck.violation(key, {"observed": rec["obs"]}, case={"case": case, "table": list(table)})
+    return len(res.by_tag("APPLIED"))
+
+
+def _validate(ck, cases, obs, label, table=(), pool=None):
+    """TLC evaluates P and T on the observations; chunks run concurrently, verdicts are applied in chunk order."""
     bad = [(c, o) for c, o in zip(cases, obs) if "_error" in o]
     if bad:
         raise MachineryFailure(f"replay error in {label}: {bad[0]}")
     recs = [_obs_record(c, o) for c, o in zip(cases, obs)]
     tpath = ck.write_json(f"table_{label}.json", list(table))
-    applied = 0
-    CH = 50000
-    for off in range(0, len(recs), CH):
-        part = recs[off : off + CH]
-        path = ck.write_json(f"obs_{label}_{off}.json", part)
-        res = ck.tlc("Trace_C01", env={"OBS": path, "TABLE": tpath}, workers=1, coverage=False, label=f"trace validation {label} [{off}:{off + len(part)}]", timeout=1800)
-        if res.distinct != len(part) + 1:
-            raise MachineryFailure(f"trace validation {label} consumed {res.distinct - 1} of {len(part)} observations")
-        ck.validated(len(part))
-        applied += len(res.by_tag("APPLIED"))
-        for r in res.by_tag("T-FAIL"):
-            rec = part[r["idx"] - 1]
-            ck.drift_step(f"{rec['fam']}.{rec['op']}", {"case": {k: rec[k] for k in CASE_FIELDS}, "model": {k: r["model"][k] for k in ("k", "exc", "unit", "v")}, "observed": rec["obs"]})
-        for r in res.by_tag("P-FAIL"):
-            rec = part[r["idx"] - 1]
-            case = {k: rec[k] for k in CASE_FIELDS}
-            key = dict(case)
-            key["cls"] = r["cls"]
-            key["clause"] = r["clause"]
-            if table:
-                names = {t["name"]: t["sym"] for t in table}
-                key["u0"] = names.get(case["n0"], case["n0"])
-                key["u1"] = names.get(case["n1"], case["n1"])
-                key.pop("n0"), key.pop("n1")
-            ck.violation(key, {"observed": rec["obs"]}, case={"case": case, "table": list(table)})
-    return applied
+    parts = [(off, recs[off : off + CHUNK]) for off in range(0, len(recs), CHUNK)]
+    if pool is None:
+        results = [_validate_chunk(ck, part, label, off, tpath) for off, part in parts]
+    else:
+        futs = [pool.submit(_validate_chunk, ck, part, label, off, tpath) for off, part in parts]
+        results = [f.result() for f in futs]
+    return sum(_verdicts(ck, part, res, table) for (off, part), res in zip(parts, results))
 
 
 def _table(ck, data):
@@ -141,17 +158,18 @@ def run(ck):
     data = ck.extract()
     tree_ops = sorted(n for n, r in data["ufunc_registry"].items() if r["nin"] == 2)
 
-    # ---- 1. model matrix ----
     units_q = ["la", "lb", "ta", "nd", "K", "degC"]
     units_t = ["la", "lb", "ta", "nd", "nq", "pc", "rad", "K", "R", "degC", "degF", "delta_degC", "delta_degF"]
     sp_q = ["ts", "ds", "nz", "ns", "tm", "t32", "tl", "tq", "tqa"]  # value classes (tiny, denormal, -0.0, NaN, mixed, float32, tiny quantities)
     sp_t = ["ts", "ds", "nz", "ns", "is", "ta", "tm", "t32", "tl", "nza", "na", "tq", "tqa"]
+    seq_q = ["lzq", "lbq", "lqb", "tlqm", "lqm3"]  # sequences mixing bare numbers and quantities, tuples, 3-element mixed list
+    seq_t = ["lzq", "lbq", "lqb", "tlq", "tlqm", "lqm3"]
     k0_q = ["q", "a", "az", "bs", "za", "lq"]
     k1_q = ["q", "a", "az", "bs", "ba", "z", "lq", "lqm"]
     kall = ["q", "a", "az", "c", "bs", "ba", "bl", "z", "za", "zl", "lq", "lqm"]
     arr_all = [
         "concatenate", "stack", "vstack", "hstack", "dstack", "column_stack", "block", "append", "where", "choose", "select",
-        "intersect1d", "union1d", "setdiff1d", "setxor1d", "isin", "interp", "linspace", "geomspace", "einsum", "insert",
+        "intersect1d", "union1d", "setdiff1d", "setxor1d", "isin", "interp", "linspace", "geomspace", "insert",  # einsum is a product (repaired tree): not a C01 operation
         "searchsorted", "clip", "put", "place", "putmask", "put_along_axis", "fill_diagonal", "isclose", "allclose",
         "array_equal", "array_equiv", "copyto", "copyto_where", "pad", "histogram_range",
     ]  # fmt: skip
@@ -162,71 +180,97 @@ def run(ck):
     consts = {
         "Units": _set(units),
         "ConvUnits": _set(units + ["C", "statC"]),
-        "UKinds0": _set(ck.q(k0_q + sp_q, kall + sp_t)),
-        "UKinds1": _set(ck.q(k1_q + sp_q, kall + sp_t)),
+        "UKinds0": _set(ck.q(k0_q + sp_q + seq_q, kall + sp_t + seq_t)),
+        "UKinds1": _set(ck.q(k1_q + sp_q + seq_q, kall + sp_t + seq_t)),
         "SpUnits": _set(ck.q(["la", "K"], units_t)),
+        "Hists": _set(["modify", "readd", "tworeg"]),
+        "HUnits": _set(ck.q(["la", "lb", "ta"], ["la", "lb", "ta", "ma", "nq"])),
         "UfOps": _set(tree_ops),
         "Forms": _set(["call", "outer", "operator", "iop", "out", "at", "reduce_initial"]),
         "ArrFns": _set(arr_fns),
     }
-    cases = []
-    model_bad = {}
-    uncovered = set()
-    for fams in (["ufunc"], ["arrfn", "setitem", "conv", "unitop"]):
+    table = _table(ck, data)
+    tpath = ck.write_json("table_mc.json", table)
+
+    def mc_matrix(fams):
         cfg = "CONSTANTS\n  TableUnits <- NoTable\n" + "".join(f"  {k} = {v}\n" for k, v in consts.items())
-        cfg += f"  Fams = {_set(fams)}\nINIT Init\nNEXT Next\nINVARIANT Export\nINVARIANT Uncovered\nCHECK_DEADLOCK FALSE\n"
+        cfg += f"  Fams = {_set(fams)}\nINIT Init\nNEXT NextAll\nINVARIANT Export\nINVARIANT Uncovered\nCHECK_DEADLOCK FALSE\n"
         name = "MC_C01_run_" + fams[0]
         open(ck.spec + f"/{name}.cfg", "w").write(cfg)
         res = ck.tlc("MC_C01", name, workers=1, label=f"case matrix {'+'.join(fams)} ({len(units)} units)", coverage=False, timeout=3000)
         got = res.by_tag("CASE")
         if res.distinct != len(got) + 1:
             raise MachineryFailure(f"exported {len(got)} cases but TLC found {res.distinct} states")
-        for r in got:
-            cases.append(r["c"])
-            if not r["mok"]:
-                c = r["c"]
-                k = f"{c['fam']}.{c['op']}" + (".reduce_initial" if c["form"] == "reduce_initial" else "")
-                model_bad[k] = model_bad.get(k, 0) + 1
-        uncovered |= {r["op"] for r in res.by_tag("UNCOVERED")}
-    if len(cases) < 1000:
-        raise MachineryFailure("too few cases exported")
+        return res, got
+
+    def mc_table():
+        # quick: each dimension against its cyclic successors at two strides; thorough: all ordered pairs
+        cfg = "CONSTANTS\n  TableUnits <- MCTable\n" + f"  Strides = {ck.q('{1, 7}', '{}')}\n  AllPairs = {ck.q('FALSE', 'TRUE')}\n"
+        cfg += "".join(f"  {k} = {{}}\n" for k in ("Units", "ConvUnits", "UKinds0", "UKinds1", "Forms", "Fams", "SpUnits", "Hists", "HUnits"))
+        cfg += f"  ArrFns = {_set(arr_fns)}\n  UfOps = {_set(tree_ops)}\nINIT Init\nNEXT TNext\nINVARIANT Export\nCHECK_DEADLOCK FALSE\n"
+        open(ck.spec + "/MC_C01_table_run.cfg", "w").write(cfg)
+        res = ck.tlc("MC_C01_table", "MC_C01_table_run", env={"TABLE": tpath}, workers=1, label=f"gamma sweep over {len(table)} dimensions of the lookup table", coverage=False, timeout=3000)
+        got = res.by_tag("CASE")
+        if res.distinct != len(got) + 1:
+            raise MachineryFailure(f"table sweep exported {len(got)} cases but TLC found {res.distinct} states")
+        return res, got
+
+    import suite
+    from common import NCPU
+
+    # independent stages run concurrently (TLC instances, replays, trace-validation chunks, the suite recording);
+    # every verdict is recorded in the main thread in a fixed order, so the outcome does not depend on scheduling
+    fam_groups = (["ufunc"], ["arrfn", "setitem", "conv", "unitop"], ["hist"])
+    with cf.ThreadPoolExecutor(max_workers=max(2, NCPU)) as pool:
+        f_suite = pool.submit(suite.record, ck)
+        f_mc = [pool.submit(mc_matrix, fams) for fams in fam_groups]
+        f_tab = pool.submit(mc_table) if table else None
+        cases = []
+        model_bad = {}
+        uncovered = set()
+        for f in f_mc:
+            res, got = f.result()
+            for r in got:
+                cases.append(r["c"])
+                if not r["mok"]:
+                    c = r["c"]
+                    k = f"{c['fam']}.{c['op']}" + (".reduce_initial" if c["form"] == "reduce_initial" else "") + ("" if c.get("h", "none") == "none" else ".history")
+                    model_bad[k] = model_bad.get(k, 0) + 1
+            uncovered |= {r["op"] for r in res.by_tag("UNCOVERED")}
+        if len(cases) < 1000:
+            raise MachineryFailure("too few cases exported")
+        if not any(c.get("h", "none") != "none" for c in cases):
+            raise MachineryFailure("no registry-history case exported")
+        tcases = [r["c"] for r in f_tab.result()[1]] if f_tab else []
+        f_obs = pool.submit(ck.pmap, "impl_c01", "observe", cases, None, 900, {})
+        f_tobs = pool.submit(ck.pmap, "impl_c01", "observe", tcases, max(1, NCPU // 2), 900, {"table": table}) if tcases else None
+        applied = _validate(ck, cases, f_obs.result(), "matrix", pool=pool)
+        if tcases:
+            applied += _validate(ck, tcases, f_tobs.result(), "table", table, pool=pool)
+        events, tail = f_suite.result()
+
     ck.cov["exhaustive"] = True
     ck.cov["bound"] = {k: v for k, v in consts.items()}
     ck.cov["model_level_violations_by_operation"] = model_bad
     ck.cov["uncovered"] = sorted(f"ufunc {o} (binary entry of the tree's table outside the commensurability matrix)" for o in uncovered) + [f"array function {f} not handled by this tree" for f in missing]
     ck.sample({"case": cases[len(cases) // 3]})
     ck.sample({"case": cases[(2 * len(cases)) // 3]})
-    obs = ck.pmap("impl_c01", "observe", cases, common={})
-    applied = _validate(ck, cases, obs, "matrix")
+    ck.sample({"history_case": next(c for c in cases if c.get("h", "none") != "none")})
     by_fam = {}
     for c in cases:
-        by_fam[c["fam"]] = by_fam.get(c["fam"], 0) + 1
+        k = c["fam"] if c.get("h", "none") == "none" else "history:" + c["fam"]
+        by_fam[k] = by_fam.get(k, 0) + 1
     ck.cov["cases_by_family"] = by_fam
-
-    # ---- 2. gamma sweep over the real lookup table ----
-    table = _table(ck, data)
-    tcases = []
-    if table:
-        tpath = ck.write_json("table_mc.json", table)
-        # quick: each dimension against its cyclic successors at two strides; thorough: all ordered pairs
-        cfg = "CONSTANTS\n  TableUnits <- MCTable\n" + f"  Strides = {ck.q('{1, 7}', '{}')}\n  AllPairs = {ck.q('FALSE', 'TRUE')}\n"
-        cfg += f"  Units = {{}}\n  ConvUnits = {{}}\n  UKinds0 = {{}}\n  UKinds1 = {{}}\n  Forms = {{}}\n  Fams = {{}}\n  SpUnits = {{}}\n  ArrFns = {_set(arr_fns)}\n  UfOps = {_set(tree_ops)}\nINIT Init\nNEXT TNext\nINVARIANT Export\nCHECK_DEADLOCK FALSE\n"
-        open(ck.spec + "/MC_C01_table_run.cfg", "w").write(cfg)
-        res = ck.tlc("MC_C01_table", "MC_C01_table_run", env={"TABLE": tpath}, workers=1, label=f"gamma sweep over {len(table)} dimensions of the lookup table", coverage=False, timeout=3000)
-        got = res.by_tag("CASE")
-        if res.distinct != len(got) + 1:
-            raise MachineryFailure(f"table sweep exported {len(got)} cases but TLC found {res.distinct} states")
-        tcases = [r["c"] for r in got]
-        ck.sample({"table_case": tcases[len(tcases) // 2], "units": {t["name"]: t["sym"] for t in table if t["name"] in (tcases[len(tcases) // 2]["n0"], tcases[len(tcases) // 2]["n1"])}})
-        tobs = ck.pmap("impl_c01", "observe", tcases, common={"table": table})
-        applied += _validate(ck, tcases, tobs, "table", table)
+    if tcases:
+        mid = tcases[len(tcases) // 2]
+        ck.sample({"table_case": mid, "units": {t["name"]: t["sym"] for t in table if t["name"] in (mid["n0"], mid["n1"])}})
         ck.cov["gamma"] = {"dimensions": len(table), "cases": len(tcases), "all_ordered_pairs": ck.tier == "thorough"}
-
     ck.cov["evaluations"] = len(cases) + len(tcases)
     ck.cov["distinct_nontrivial"] = applied
     ck.cov["rule"] = "cases on which P_C01 demands something (Demanded or EqDemanded true): operands of different dimension in a commensurability-requiring operation outside the documented exceptions"
 
-    # ---- 3. code -> spec: the repository's test-suite ----
-    import suite
-
-    suite.check(ck, ["P01"])
+    # code -> spec: the repository's test-suite (recorded above, concurrently), predicate P01 evaluated by TLC
+    ck.cov.setdefault("suite", {})["pytest_tail"] = tail[-120:]
+    for r, e in suite.validate(ck, ["P01"], events=events):
+        ck.violation({"source": "suite", "pred": r["pred"], "fn": e["fn"], "method": e["method"], "exc": e["exc"]}, suite.brief(e), case={"suite_event": e})
+    ck.cov["tlc_runs"].sort(key=lambda r: r["label"])  # concurrent runs finish in any order
